@@ -76,7 +76,10 @@ _DIMNAME = {"length": "L", "mass": "M", "time": "T", "current": "I", "temperatur
 def project_dim(dimension):
     """Real Dimension -> exponent vector (list of [n, d] in BASE order); None if outside the 8 bases."""
     from sympy.physics.units.systems.si import dimsys_SI
-    deps = dimsys_SI.get_dimensional_dependencies(dimension)
+    try:
+        deps = dimsys_SI.get_dimensional_dependencies(dimension)
+    except Exception:  # pylint: disable=broad-except
+        return None     # not a dimension SymPy can interpret (e.g. a quantity or symbol in an exponent)
     vec = {b: Fraction(0) for b in BASE}
     for k, e in deps.items():
         name = _DIMNAME.get(str(k.name))
